@@ -78,6 +78,21 @@ pub fn run_dbgt(args: &[u64]) -> Vec<Vec<u64>> {
     run_session(feat, fuel, src, queue, ninp, if has_arg { Some(arg) } else { None })
 }
 
+/// `DBGS feat fuel nsrc src* has_arg narg arg* nstream stream*`: one console stream, bytes as given.
+pub fn run_dbgs(args: &[u64]) -> Vec<Vec<u64>> {
+    let mut c = Cur::new(args);
+    let feat = c.next() != 0;
+    let fuel = c.next();
+    let nsrc = c.next() as usize;
+    let src: String = c.take(nsrc).iter().map(|x| char::from_u32(*x as u32).unwrap_or('\u{FFFD}')).collect();
+    let has_arg = c.next() != 0;
+    let narg = c.next() as usize;
+    let arg: String = c.take(narg).iter().map(|x| char::from_u32(*x as u32).unwrap_or('\u{FFFD}')).collect();
+    let nstream = c.next() as usize;
+    let stream: Vec<u8> = c.take(nstream).iter().map(|b| *b as u8).collect();
+    run_session(feat, fuel, src, stream, nstream, if has_arg { Some(arg) } else { None })
+}
+
 /// `inp`: the console input stream (shared by the debugger's stdin reader and the program);
 /// `ninp`: how many of its trailing bytes are meant for the program (reported input left is capped by it).
 fn run_session(feat: bool, fuel: u64, src: String, inp: Vec<u8>, ninp: usize, command: Option<String>) -> Vec<Vec<u64>> {
